@@ -20,6 +20,9 @@ ASSUMPTIONS = [
     "sizes 64 and 128 run the same cases and must agree on everything but comparator counts",
     "histories with allocation failure scripts are checked against the model only (L2); their spec line is '*' "
     "(NO_MEM behaviour belongs to C07)",
+    "flag 'a' cases: the driver's allocator numbers requests (refused ones included) and records every block obtained / "
+    "released with the entry used; the sequence must equal the event log of the instrumented model coq/BTreeAllocModel.v "
+    "(C08 for B-tree pages: coq/Properties_C08_btree.v)",
 ]
 
 
@@ -40,7 +43,16 @@ def gen(ctx, seed, tier):
     plan = {64: 1300 if quick else 8000, 128: 400 if quick else 2500, 256: 160 if quick else 1000, 4096: 48 if quick else 300}
     for page, n in plan.items():
         for _ in range(n):
-            cases.append(bt.gen_history(r, page, tier).line())
+            # 40% of the histories also carry the allocation trace (flag 'a': every page obtained / released, by request
+            # serial, compared with the instrumented model BTreeAllocModel), with allocation scripts in a third of them
+            if r.random() < 0.4:
+                cases.append(bt.gen_history(r, page, tier, flags="a", oracle_p=0.35).line())
+            else:
+                cases.append(bt.gen_history(r, page, tier).line())
+    if seed == ctx.seed:
+        for page in bt.PAGES:   # zix_btree_new under every script of its two requests
+            for nb in ("N0", "N10", "N11", "N110", "N1"):
+                cases.append("%d a %s i1.1 i2.2 r1 w" % (page, nb))
     if not quick and seed == ctx.seed:
         cases += exhaustive_small(5, 6)
         # bulk phases at the default page size: 70 000 ascending / pseudo-random keys, then removal of most
@@ -191,4 +203,6 @@ def l1_extra(case, impl_obs):
 def stats(cases, impl):
     return {"ops": bt.op_histogram(cases), "statuses": bt.status_histogram(impl),
             "cases_by_page_and_depth": bt.depth_histogram(cases, impl),
-            "histories_with_allocation_script": sum(1 for c in cases if " O" in c)}
+            "histories_with_allocation_script": sum(1 for c in cases if " O" in c),
+            "histories_with_allocation_trace": sum(1 for c in cases if "a" in c.split()[1]),
+            "allocation_events_compared": sum(l.count(":a") for l in impl if " || " in l)}
